@@ -11,6 +11,7 @@ package c12
 
 import (
 	"fmt"
+	"io"
 	"os"
 	"path/filepath"
 	"sort"
@@ -261,6 +262,133 @@ func body(k cfg) func(c *drv.Ctx) {
 	}
 }
 
+// gatedDir is a backup target whose first GetWriter parks the copying thread until released: a slow
+// backup, expressed with scheduler primitives so that it is an ordinary, explorable wait.
+type gatedDir struct {
+	bleve.FileSystemDirectory
+	parked  chan int
+	release chan int
+	n       int
+	first   bool
+}
+
+func (g *gatedDir) GetWriter(p string) (io.WriteCloser, error) {
+	if !g.first {
+		g.first = true
+		vrt.Send(g.parked, g.n)
+		vrt.Recv(g.release)
+	}
+	return g.FileSystemDirectory.GetWriter(p)
+}
+
+// bodySlow: two overlapping backups taken on a root that is never persisted under its own epoch
+// (unsafe batches), the second one slow: it still has to copy its files after the first backup has
+// finished, the files were merged away in the live index, the newer root was persisted and the old
+// epochs purged. Needed files "scheduled for an online copy" must still exist then.
+func bodySlow(k cfg) func(c *drv.Ctx) {
+	return func(c *drv.Ctx) {
+		base := c.Dir + "/idx"
+		var idx bleve.Index
+		parked := make(chan int, 4)
+		start := make(chan int, 4)
+		rel := []chan int{make(chan int, 1), make(chan int, 1)}
+		errs := make([]error, 2)
+		var wg vrt.WaitGroup
+		for n := 0; n < 2; n++ {
+			n := n
+			wg.Add(1)
+			vrt.Go(func() {
+				defer wg.Done()
+				vrt.Recv(start)
+				g := &gatedDir{FileSystemDirectory: bleve.FileSystemDirectory(fmt.Sprintf("%s/copy%d", c.Dir, n)), parked: parked, release: rel[n], n: n}
+				errs[n] = idx.(bleve.IndexCopyable).CopyTo(g)
+			})
+		}
+		vrt.Free(func() {
+			var err error
+			idx, err = bleve.NewUsing(base, bleve.NewIndexMapping(), scorch.Name, scorch.Name, map[string]interface{}{
+				"numSnapshotsToKeep": k.keep, "unsafe_batch": true,
+				"scorchMergePlanOptions": bx.CopyConfig(bx.AggressiveMergePlan),
+			})
+			if err != nil {
+				panic(err)
+			}
+			vrt.WaitIdle()
+		})
+		batch := func(j int) {
+			b := idx.NewBatch()
+			b.Index("a", map[string]interface{}{"seq": strconv.Itoa(j)})
+			b.Index(fmt.Sprintf("d%d", j), map[string]interface{}{"seq": strconv.Itoa(j)})
+			if err := idx.Batch(b); err != nil {
+				c.Fail("error:batch", "Batch: %v", err)
+			}
+		}
+		// batch 1 persisted as a file; batches 2 and 3 back to back so that the root after batch 2 is
+		// (by default) never persisted under its own epoch
+		vrt.Free(func() {
+			batch(1)
+			vrt.WaitIdle()
+		})
+		batch(2)
+		// the backup threads were created before the index, so in the default schedule they run before
+		// scorch's own goroutines: both take their copy reader on the root of batch 2 before the
+		// persister has seen it
+		vrt.Send(start, 1)
+		vrt.Send(start, 1)
+		// both backups hold their copy reader and are parked before their first file
+		vrt.Recv(parked)
+		vrt.Recv(parked)
+		if os.Getenv("VERIF_DEBUG") != "" {
+			st, _ := bx.Scorch(idx).VerifFileState()
+			fmt.Fprintf(os.Stderr, "DEBUG both parked: disk=%v state=%+v\n", zapFiles(store0(base)), st)
+		}
+		batch(3)
+		vrt.WaitIdle()
+		// the fast backup completes
+		vrt.Send(rel[0], 1)
+		vrt.WaitIdle()
+		// the live index moves on: merges replace the files the slow backup still needs, newer roots are
+		// persisted, old epochs purged
+		for j := 4; j <= 3+k.batches; j++ {
+			batch(j)
+			vrt.WaitIdle()
+		}
+		store := filepath.Join(base, "store")
+		c.Observe(fmt.Sprintf("z%d", len(zapFiles(store))))
+		if os.Getenv("VERIF_DEBUG") != "" {
+			st, _ := bx.Scorch(idx).VerifFileState()
+			fmt.Fprintf(os.Stderr, "DEBUG before slow copy: disk=%v state=%+v\n", zapFiles(store), st)
+		}
+		// now the slow backup copies its files
+		vrt.Send(rel[1], 1)
+		wg.Wait()
+		vrt.Free(func() {
+			for n, err := range errs {
+				if err != nil {
+					c.Fail("copy-failed", "backup #%d (slow=%v) failed: %v — a file scheduled for an online copy was not there any more", n, n == 1, err)
+					continue
+				}
+				ci, err := bleve.Open(fmt.Sprintf("%s/copy%d", c.Dir, n))
+				if err != nil {
+					c.Fail("copy-does-not-open", "backup #%d does not open: %v", n, err)
+					continue
+				}
+				cnt, _ := ci.DocCount()
+				c.Observe(fmt.Sprintf("copy%d=%d", n, cnt))
+				if cnt != 2 && cnt != 3 && cnt != 4 {
+					c.Fail("copy-wrong-content", "backup #%d holds %d documents (the copy reader was taken between batch 2 and batch 3: 3 or 4 expected)", n, cnt)
+				}
+				ci.Close()
+			}
+			if err := idx.Close(); err != nil {
+				c.Fail("error:close", "Close: %v", err)
+			}
+		})
+	}
+}
+
+func store0(base string) string { return filepath.Join(base, "store") }
+
 func Scenarios() []drv.Scenario {
 	mk := func(k cfg, quick, thorough []drv.Phase) drv.Scenario {
 		return drv.Scenario{Name: k.name, Body: body(k), Quick: quick, Thorough: thorough, Class: "files", MaxSteps: 1500000}
@@ -273,6 +401,7 @@ func Scenarios() []drv.Scenario {
 		mk(cfg{name: "writer+reader+copy-keep1", keep: 1, batches: 4, copy: true}, d1r, d2),
 		mk(cfg{name: "writer+reader+two-overlapping-copies-keep1", keep: 1, batches: 4, copy: true, copies: 2}, d1r, d2),
 		mk(cfg{name: "unsafe-writer+reader+two-overlapping-copies-keep1", keep: 1, batches: 4, copy: true, copies: 2, unsafe: true}, d1r, d2),
+		{Name: "slow-overlapping-backups-unsafe-keep1", Body: bodySlow(cfg{keep: 1, batches: 3}), Quick: d1r, Thorough: d2, Class: "files", MaxSteps: 1500000},
 		mk(cfg{name: "writer+reader-keep3", keep: 3, batches: 4}, nil, d1),
 		mk(cfg{name: "writer+reader-keep2-every-step", keep: 2, batches: 3, allStep: true}, nil, d1),
 	}
